@@ -153,3 +153,27 @@ def quantile(ctx):
     res = shared.run_model(ctx, "MC_Quantile", cfg, name="MC_Quantile", constants=f"MaxLen={n}", coverage=True, must_cover=("Grow",))
     if res.violated:
         raise MachineryFailure(f"MC_Quantile: {res.violated} violated: {res.error_trace[-1:]}")
+
+
+COHPIPE_CFG = """SPECIFICATION Spec
+CHECK_DEADLOCK FALSE
+CONSTANTS MaxLen = {maxlen}
+NLabels = {nlabels}
+SplitEvery = {se}
+Names = {{"nansum", "nanmax", "nanmean", "argmax", "nanfirst", "count", "nanvar"}}
+INVARIANT {inv}
+"""
+
+
+def cohort_pipeline(ctx):
+    """planner (Cohorts.tla) composed with the algebra (Aggs.tla) on the live table"""
+    _write_table()
+    cfgs = [dict(maxlen=3, nlabels=2, se=2)] if ctx.tier == "quick" else [dict(maxlen=5, nlabels=2, se=2), dict(maxlen=4, nlabels=3, se=3)]
+    for c in cfgs:
+        res = shared.run_model(ctx, "MC_CohortPipeline", COHPIPE_CFG.format(inv="CohortsStrategyIsRef", **c), name=f"MC_CohortPipeline[{c}]",
+                               constants=str(c), timeout=3000)
+        if res.violated:
+            raise MachineryFailure(f"MC_CohortPipeline: the composed cohorts strategy differs from Ref in the model: {res.error_trace[-1:]}")
+    w = shared.run_model(ctx, "MC_CohortPipeline", COHPIPE_CFG.format(inv="NeverExercised", **cfgs[0]), name="MC_CohortPipeline(vacuity witness)", constants=str(cfgs[0]))
+    if w.violated != "NeverExercised":
+        raise MachineryFailure("MC_CohortPipeline: the cohorts strategy is never exercised by the model (vacuous)")
